@@ -96,7 +96,7 @@ def check(run):
     n_events, samples = 0, []
     outcomes, classes, special = Counter(), Counter(), Counter()
     cells, special_cells, misc_cov = set(), set(), Counter()
-    tcs = {}
+    tcs, alts = {}, set()
     distinct, distinct_inrange = set(), set()
     for events, why, r in out:
         run.add_tlc(r)
@@ -108,6 +108,10 @@ def check(run):
             outcomes["%s_p%d_%s_%s" % (ev["kind"], ev["i"], cls, o)] += 1
             classes[cls] += 1
             tcs.setdefault(ev["kind"] + "_" + ev["fam"], set()).add(ev["tc"])
+            if ev["kind"] == "air":
+                alts.add(ev["altc"])
+            if ev["f"][0] < 0:
+                outcomes["frames_not_delivered_by_decoder"] += 1
             if v is not None:
                 pc, pa = v["plan"] // 10000, (v["plan"] // 100) % 100
                 cells.add((ev["kind"], ev["i"], pc, pa))
@@ -151,13 +155,15 @@ def check(run):
         "special_float_cells_covered": len(special_cells), "special_float_cells_total": 4 * 2 * N_SPECIAL,
         "misc_references": dict(sorted(misc_cov.items())),
         "outcomes": dict(sorted(outcomes.items())),
+        "altitude_field_classes_airborne": sorted(alts),
         "type_codes_per_kind_and_family": {k: sorted(v) for k, v in sorted(tcs.items())},
         "mc_states": m.distinct,
         "nltable_selfcheck": note,
         "samples": samples,
         "rule": "one evaluation = one (message, reference) pair: a true position on the lattice u = 360/2^24 deg "
                 "(the C04 point families plus every surface latitude-zone edge), encoded by CPR.tla as an airborne "
-                "or surface, even or odd report (the four combinations rotate over the slots of each position), and "
+                "or surface, even or odd report (the four combinations rotate over the slots of each position; frames "
+                "rotate over type codes 9..18, 20..22 / 5..8 and, airborne, seven altitude-field classes), and "
                 "decoded by airborne_/surface_position_with_reference against a reference from the plan of "
                 "spec/gen/Gen_CPR05.tla: 16 bearings x 15..99 % of the half zone in each coordinate (longitude "
                 "wrapped or left beyond +-180), 105..4000 % of the half zone (far), and misc (special floats -0.0, "
